@@ -225,19 +225,25 @@ def dirsOf (c obs ceil : V3) : Dirs :=
   let t := V3.smul (V3.norm2 o) cd - V3.smul (V3.dot cd o) o
   ⟨o, t, V3.cross o t⟩
 
-/-- the loop `for key, normal in normals.items()` of `reorient`: front, back, top, bottom, left, right -/
+/-- one pass of the loop `for key, normal in normals.items()`: the two best aligned remaining triangles
+    become a quad -/
+def quadStep (dir : V3) (rem : List Tri) : Except Err (List V3 × List Tri) :=
+  match pick2 dir rem with
+  | none => .error .index
+  | some (b, a, rest) =>
+    match mkQuad b a with
+    | .ok q => .ok (q, rest)
+    | .error e => .error e
+
+/-- the loop of `reorient`: front, back, top, bottom, left, right (dict order, generated table `c18ViewOrder`) -/
 def quadsOf (tris : List Tri) (d : Dirs) : Except Err Quads := do
-  let step (dir : V3) (rem : List Tri) : Except Err (List V3 × List Tri) :=
-    match pick2 dir rem with
-    | none => .error .index
-    | some (b, a, rest) => (mkQuad b a).map (fun q => (q, rest))
-  let (front, r) ← step d.o tris
-  let (back, r) ← step (-d.o) r
-  let (top, r) ← step d.t r
-  let (bottom, r) ← step (-d.t) r
-  let (left, r) ← step d.l r
-  let (right, _) ← step (-d.l) r
-  pure ⟨front, back, top, bottom, left, right⟩
+  let x1 ← quadStep d.o tris
+  let x2 ← quadStep (-d.o) x1.2
+  let x3 ← quadStep d.t x2.2
+  let x4 ← quadStep (-d.t) x3.2
+  let x5 ← quadStep d.l x4.2
+  let x6 ← quadStep (-d.l) x5.2
+  pure ⟨x1.1, x2.1, x3.1, x4.1, x5.1, x6.1⟩
 
 /-- `sorted_points`: each corner is the common point of three quads. -/
 def cornersOf (q : Quads) : Except Err (List V3) := do
@@ -265,25 +271,46 @@ def fixHand (out : List V3) : List V3 :=
   if det3 (p 1 - p 0) (p 3 - p 0) (p 4 - p 0) < 0 then swapLR out else out
 
 /-- everything of `reorient` after `_make_triangles`; works with coordinates only -/
-def reorientCore (pts : List V3) (tris : List Tri) (c obs ceil : V3) : Except Err (List V3) := do
+def reorientCore (pts : List V3) (tris : List Tri) (c obs ceil : V3) : Except Err (List V3) :=
   let d := dirsOf c obs ceil
   if d.o = V3.zero ∨ d.t = V3.zero then .error .badView
-  let q ← quadsOf tris d
-  let out ← cornersOf q
-  if eachOnce pts out then pure (fixHand out) else .error .degenerate
+  else
+    match quadsOf tris d with
+    | .error e => .error e
+    | .ok q =>
+      match cornersOf q with
+      | .error e => .error e
+      | .ok out => if eachOnce pts out then .ok (fixHand out) else .error .degenerate
+
+/-- `np.take(points, indexes, axis=0)` for one simplex -/
+def triOf (pts : List V3) (s : Nat × Nat × Nat) : Tri :=
+  ⟨pts.getD s.1 V3.zero, pts.getD s.2.1 V3.zero, pts.getD s.2.2 V3.zero⟩
 
 /-- `_make_triangles` given the simplices of `scipy.spatial.ConvexHull(points)` (oracle argument) -/
 def makeTriangles (pts : List V3) (simplices : List (Nat × Nat × Nat)) : Except Err (List Tri) :=
   if simplices.length ≠ 12 then .error .notConvex
-  else
-    let c := average pts
-    let g (i : Nat) := pts.getD i V3.zero
-    .ok (simplices.map (fun s => (Tri.mk (g s.1) (g s.2.1) (g s.2.2)).orient c))
+  else .ok ((simplices.map (triOf pts)).map (fun t => t.orient (average pts)))
 
 /-- `ViewpointReorienter(observer, ceiling).reorient(operation)`: the new `point_array`. -/
-def reorient (pts : List V3) (simplices : List (Nat × Nat × Nat)) (obs ceil : V3) : Except Err (List V3) := do
-  let tris ← makeTriangles pts simplices
-  reorientCore pts tris (average pts) obs ceil
+def reorient (pts : List V3) (simplices : List (Nat × Nat × Nat)) (obs ceil : V3) : Except Err (List V3) :=
+  match makeTriangles pts simplices with
+  | .error e => .error e
+  | .ok tris => reorientCore pts tris (average pts) obs ceil
+
+/-- `p` coincides (to the merge tolerance) with a point of `l` -/
+def nearMem (p : V3) (l : List V3) : Prop := ∃ x ∈ l, near p x
+
+def Quads.get (q : Quads) : String → List V3
+  | "front" => q.front
+  | "back" => q.back
+  | "top" => q.top
+  | "bottom" => q.bottom
+  | "left" => q.left
+  | "right" => q.right
+  | _ => []
+
+/-- what the handedness repair does to the sides: left and right change places -/
+def Quads.swapLR (q : Quads) : Quads := { q with left := q.right, right := q.left }
 
 /-! ## the specification of a canonical numbering (validator) -/
 
@@ -408,6 +435,15 @@ def improper24 : List (List Nat) :=
    [7, 6, 2, 3, 4, 5, 1, 0]]
 
 def sym48 : List (List Nat) := proper24 ++ improper24
+
+/-- sign pattern of a vector (to compare directions up to a positive factor) -/
+def signV (v : V3) : List Int :=
+  let sg (q : Rat) : Int := if 0 < q then 1 else if q < 0 then -1 else 0
+  [sg v.x, sg v.y, sg v.z]
+
+/-- the six view directions in the order the model's loop uses them -/
+def Dirs.all (d : Dirs) : List (String × V3) :=
+  [("front", d.o), ("back", -d.o), ("top", d.t), ("bottom", -d.t), ("left", d.l), ("right", -d.l)]
 
 /-! ## line protocol -/
 
